@@ -89,6 +89,19 @@ def c04() -> int:
     return c.finish()
 
 
+def c05() -> int:
+    c = Check("C05", "explicit-state BFS of the real step function (FSX) with a per-transition conservation monitor (sums follow by induction over paths)")
+    c.assumptions += ["exhaustive only inside the closed worlds and bounds listed under coverage.explorations",
+                      "additive ledgers are decided per transition: if every explored transition preserves delta(accumulator) = sum(events of the step), every explored path preserves the sums"]
+    quick = tier() == "quick"
+    needs = ["c05:charge:ChargingStation:DCFC", "c05:charge:ChargingStation:LEVEL_2", "c05:charge:ChargingBase:LEVEL_2",
+             "c05:charge:ChargingStation:GAS_PUMP", "c05:charge_at_nonzero_tariff", "env:P", "c05:fare"]
+    fsx(c, RES + ({"variant": "core", "gas": True, "prices": True, "mechs": ("thirsty", "small", "ice"), "name": "W-res/money"},),
+        ("hivemc.bundles", "c05", {}), K=2 if quick else 3, H=7 if quick else 9, needs=needs)
+    fsx(c, REQ + ({},), ("hivemc.bundles", "c05", {}), K=3 if quick else 4, H=8 if quick else 10, needs=["c05:fare"])
+    return c.finish()
+
+
 def c08() -> int:
     from .enum_index import c08_enum
 
@@ -139,10 +152,22 @@ def c15() -> int:
     return run()
 
 
+def c19() -> int:
+    c = Check("C19", "explicit-state BFS of the real step function with the real file-writing handlers installed; event.log lines parsed back after every transition")
+    c.assumptions += ["per-transition agreement between log lines and state deltas; whole-run sums follow by induction over paths",
+                      "Reporter + EventfulHandler + StatsHandler + VehicleChargeEventsHandler installed as load_simulation/load_scenario do; output on tmpfs"]
+    quick = tier() == "quick"
+    needs = ["c19:move", "c19:charge", "c19:station_load_nonzero", "c19:pickup", "c19:dropoff"]
+    fsx(c, ("hivemc.w_log", "make_res", {"variant": "core", "gas": True, "prices": True, "mechs": ("thirsty", "small", "ice")}),
+        ("hivemc.bundles", "c19", {}), K=2 if quick else 3, H=7 if quick else 9, needs=needs)
+    fsx(c, ("hivemc.w_log", "make_req", {}), ("hivemc.bundles", "c19", {}), K=3 if quick else 4, H=8 if quick else 10, needs=["c19:pickup", "c19:dropoff"])
+    return c.finish()
+
+
 def c20() -> int:
     from .enum_shift import c20 as run
 
     return run()
 
 
-CHECKS = {"C15": c15, "C01": c01, "C20": c20, "C08": c08, "C12": c12, "C11": c11, "C04": c04, "C13": c13, "C14": c14, "C17": c17, "C02": c02, "C03": c03, "C07": c07}
+CHECKS = {"C19": c19, "C05": c05, "C15": c15, "C01": c01, "C20": c20, "C08": c08, "C12": c12, "C11": c11, "C04": c04, "C13": c13, "C14": c14, "C17": c17, "C02": c02, "C03": c03, "C07": c07}
